@@ -123,10 +123,12 @@ def size_of(value):
 
 def probe(ctx, tag, project, assignments=2):
     """build + run one probe crate; returns (preamble, items, meta, problems)"""
-    d = os.path.join(ctx.work, "probe_" + tag)
+    from checks import isolate
+    d = isolate.probe_dir(ctx, "probe_" + tag)
     os.makedirs(d, exist_ok=True)
-    pc.write_crate(d, project, assignments)
-    exe, log = pc.build_crate(d)
+    pname = isolate.probe_name(ctx, "h_probe")
+    pc.write_crate(d, project, assignments, name=pname)
+    exe, log = pc.build_crate(d, name=pname)
     if exe is None:
         return "", [], [], [{"what": "generated probe crate does not compile", "crate": d, "log_tail": log[-2500:]}]
     res = pc.run_probe(exe)
@@ -210,6 +212,8 @@ def shrink(ctx, failing):
 
 
 def run(ctx):
+    from checks import isolate
+    isolate.enter(ctx)
     ok, problems_audit = core.coq_audit(ctx, PROPS, THEOREMS)
     info = dict(ctx.coq_info)
     ok2, problems2 = core.coq_audit(ctx, PROPS_C01B, THEOREMS_C01B)
@@ -311,6 +315,8 @@ def run(ctx):
 
 
 def replay(ctx, path):
+    from checks import isolate
+    isolate.enter(ctx)
     obj = json.load(open(path))
     print(json.dumps(obj, indent=1, ensure_ascii=False)[:8000])
     return 0
